@@ -357,10 +357,10 @@ def trace_validation(ctx, sc):
                     else:
                         xs[j] = xs[j - 1]
                 if len({(a, b) for a, b in zip(xs, ys)}) < nv or (xs[-1], ys[-1]) == (xs[-2], ys[-2]):
-                    xs, ys = [0, 16, 16, 0][:nv] + [8] * (nv - 4), [0, 0, 12, 12][:nv] + [20] * (nv - 4)
+                    xs, ys = ([0, 16, 16, 0] + [8, 4])[:nv], ([0, 0, 12, 12] + [20, 16])[:nv]        # no repeated trailing vertex (that is what padding looks like)
             items.append({'cls': cls, 'x': xs, 'y': ys, 'r': r,
                           'ang': g(-90, 90) if cls in ('ellipse', 'eannulus', 'rectangle') else 0,
-                          'inc': rnd.choice(['absent', 'absent', 'T', 'F', '0', '1']), 'comp': rnd.choice([-1, -1, rnd.randint(1, 9)])})
+                          'inc': rnd.choice(['absent', 'absent', 'T', 'F', '0', '1']), 'comp': rnd.choice([-1, -1, rnd.randint(0, 9), 0])})
         try:
             with warnings.catch_warnings():
                 warnings.simplefilter('ignore')
